@@ -53,11 +53,19 @@ def main():
                 shutil.copytree("/repo/tests", scratch + "/tests", ignore=shutil.ignore_patterns("__pycache__"))
                 for fn in ("setup.cfg", "pyproject.toml"):
                     shutil.copy("/repo/" + fn, scratch + "/" + fn)
-                r = subprocess.run(["/venv/bin/python", "-m", "pytest", "-q", "-x", "-p", "no:cacheprovider"] + m["tests"],
+                xml = scratch + "/junit.xml"
+                r = subprocess.run(["/venv/bin/python", "-m", "pytest", "-q", "-p", "no:cacheprovider", "-n", "8", "--junitxml=" + xml] + m["tests"],
                                    cwd=scratch, env=dict(env, PYTHONPATH=scratch + "/src"), capture_output=True, text=True)
-                tests_ok = r.returncode == 0
-                if not tests_ok:
-                    print(r.stdout[-1500:])
+                import xml.etree.ElementTree as ET
+                stable = set(json.load(open("/root/.vp/BASELINE.json"))["stable_pass"])
+                broken = []
+                for tc in ET.parse(xml).getroot().iter("testcase"):
+                    tid = "%s::%s" % (tc.get("classname"), tc.get("name"))
+                    if tid in stable and any(ch.tag in ("failure", "error") for ch in tc):
+                        broken.append(tid)
+                tests_ok = not broken
+                if broken:
+                    print("   stable tests broken by the mutant:", broken[:3])
             t0 = time.time()
             r = subprocess.run(["/venv/bin/python", "-m", "vp.run", "--property", m["property"], "--tier", args.tier],
                                cwd=VERIF, env=env, capture_output=True, text=True)
